@@ -36,7 +36,10 @@ for line in open(os.path.join(V, "selftest", "probes.tsv")):
     if line.startswith("#") or not line.strip():
         continue
     p = line.rstrip("\n").split("\t")
-    if len(p) == 5 and (len(sys.argv) == 1 or any(a in line for a in sys.argv[1:])):
+    if len(p) != 5:
+        print("MALFORMED probe line (need 5 tab-separated fields):", line[:80])
+        sys.exit(2)
+    if len(sys.argv) == 1 or any(a in line for a in sys.argv[1:]):
         probes.append(p)
 fails = 0
 with concurrent.futures.ThreadPoolExecutor(4) as ex:
